@@ -1315,10 +1315,10 @@ def pre_multisetup(
         # Y.append({"ref": np.array(ref).reshape(n_ref,-1)})
         Y.append(
             {
-                "ref": np.array(ref).T.reshape(n_ref, -1),
+                "ref": np.array(ref).T.reshape(n_ref, y.shape[0]),
                 "mov": np.array(mov).T.reshape(
                     (n_sens - n_ref),
-                    -1,
+                    y.shape[0],
                 ),
             }
         )
